@@ -330,7 +330,8 @@ Section Obj.
     destruct (r_tlen o) as [tlen|]; [|apply ExtR_err; [ext_obj P L|exact L]].
     destruct (a_pid_with (ro_fec oti) p) as [[[sbn esi] sbl]|]; [|apply ExtR_err; [apply Ext_refl, P|exact L]].
     destruct (tlen =? 0).
-    { pose proof (Ext_complete o c P L) as K. destruct (complete o c) as [o1 c1]. apply ExtR_ok. exact K. }
+    { destruct (r_writer o) eqn:Ew0; [|apply ExtR_ok, Ext_refl, P].
+      pose proof (Ext_complete o c P L) as K. destruct (complete o c) as [o1 c1]. apply ExtR_ok. exact K. }
     destruct (sbn <? r_off o); [apply ExtR_ok, Ext_refl, P|].
     destruct (match sbl with None => nb_blocks_of oti tlen <=? sbn | Some _ => false end);
       [apply ExtR_err; [apply Ext_refl, P|exact L]|].
